@@ -11,11 +11,10 @@
 (* State records use the field names of DESIGN.md appendix A / the JSON    *)
 (* written by the harness (harness/world/abs.go).                          *)
 (***************************************************************************)
-EXTENDS Integers, Sequences, FiniteSets, TLC
+EXTENDS Integers, Sequences, FiniteSets, TLC, AwsCore
 
 Never == -100000
 
-Min2(a, b) == IF a < b THEN a ELSE b
 Max2(a, b) == IF a > b THEN a ELSE b
 \* ceiling of a/b for b > 0 and any integer a
 CeilDiv(a, b) == -((-a) \div b)
@@ -241,8 +240,21 @@ UntaintFails(F, api, att) == {n \in SeqToSet(att) : GetFails(F, api, n) \/ (api[
 
 CreatedOf(gs) == [n \in DOMAIN ViewOf(gs) |-> ViewOf(gs)[n].created]
 
+\* aws.go setASGDesiredSizeOneShot through AwsCore!IncResult: the CreateFleet path as seen from the controller.
+\* lo: number of the first instance the fleet returned (observed; 0 in the model).  Instances are named "f<k>".
+FleetPlan(F, g) ==
+  [failDescribe |-> Failing(F, "describe_asgs", "#2"), failCreate |-> Failing(F, "create_fleet", g), noCapacity |-> Failing(F, "create_fleet_none", g),
+   failSet |-> FALSE,
+   failAttach |-> IF \E f \in F : f.op = "attach" /\ f.t \in {"#1", "#2", "#3"} THEN (IF Failing(F, "attach", "#1") THEN 1 ELSE IF Failing(F, "attach", "#2") THEN 2 ELSE 3) ELSE 0,
+   failTerm |-> {k \in 1..3 : Failing(F, "terminate_instances", "#" \o ToString(k))}]
+FleetCase(u, g, F, add, lo) ==
+  [min |-> u.pc.min, max |-> u.pc.max, desired |-> u.pc.desired, d |-> add, fleet |-> TRUE, lifecycle |-> "", types |-> 0, subnets |-> 2, tagging |-> FALSE,
+   never |-> Failing(F, "status", g), tries0 |-> u.tries, lo |-> lo]
+FleetCallOf(ac, g) == [Call(ac.op, IF ac.op = "describe_asgs" THEN "" ELSE g, "", ac.ok, ac.a, ac.b, ac.s) EXCEPT !.r = ac.r]
+FleetNames(lo, n) == {"f" \o ToString(k) : k \in lo..(lo + n - 1)}
+
 \* scale_up.go ScaleUp(N) on state r (record with calls/api/asg/pc/ctl...), tainted sequence ts
-ScaleUpOutcome(gs0, g, dry, now, F, N, ts, att, r) ==
+ScaleUpOutcome(gs0, g, dry, now, F, N, ts, att, fleetLo, r) ==
   LET created == CreatedOf(gs0)
       cands == SeqToSet(ts)
       \* scaleUpUntaint
@@ -265,8 +277,17 @@ ScaleUpOutcome(gs0, g, dry, now, F, N, ts, att, r) ==
   ELSE IF dry THEN       \* no cloud call, but the lock is armed all the same
        [u EXCEPT !.valid = @ /\ selOK, !.result = u.succ + add,
                  !.ctl = [@ EXCEPT !.isLocked = TRUE, !.requested = add, !.lockAt = now]]
-  ELSE \* aws.go IncreaseSize: guards on the cache, then SetDesiredCapacity(cached desired + add)
+  ELSE \* aws.go IncreaseSize: guards on the cache, then SetDesiredCapacity(cached desired + add) or the fleet path
        IF u.pc.desired + add > u.pc.max THEN [u EXCEPT !.valid = @ /\ selOK, !.result = 0, !.uperr = TRUE]
+       ELSE IF gs0.cfg.fleet THEN
+            LET fr == IncResult(FleetCase(u, g, F, add, fleetLo), FleetPlan(F, g))
+                fcalls == [i \in 1..Len(fr.calls) |-> FleetCallOf(fr.calls[i], g)]
+                u2 == [u EXCEPT !.valid = @ /\ selOK, !.calls = @ \o fcalls, !.tries = fr.tries, !.exit = fr.exit,
+                                !.asg = [@ EXCEPT !.desired = @ + fr.attached, !.members = @ \cup FleetNames(fleetLo, fr.attached)]]
+            IN IF fr.ret = "nil"
+                 THEN [u2 EXCEPT !.result = u.succ + add, !.accepted = now,
+                                 !.ctl = [@ EXCEPT !.isLocked = TRUE, !.requested = add, !.lockAt = now]]
+                 ELSE [u2 EXCEPT !.result = 0, !.uperr = TRUE]
        ELSE LET target == u.pc.desired + add
                 injected == Failing(F, "set_desired", g)
                 bounds == target > u.asg.max \/ target < u.asg.min
@@ -296,7 +317,7 @@ GroupScan(gs, g, now, dryAll, F, obs) ==
       minEff == IF gs.cfg.auto THEN gs.pc.min ELSE gs.ctl.minEff
       maxEff == IF gs.cfg.auto THEN gs.pc.max ELSE gs.ctl.maxEff
       ctl0 == [gs.ctl EXCEPT !.minEff = minEff, !.maxEff = maxEff]
-      base == [calls |-> <<>>, api |-> gs.api, asg |-> gs.asg, pc |-> gs.pc, ctl |-> ctl0, accepted |-> gs.accepted,
+      base == [calls |-> <<>>, api |-> gs.api, asg |-> gs.asg, pc |-> gs.pc, ctl |-> ctl0, accepted |-> gs.accepted, tries |-> gs.tries, exit |-> FALSE,
                pids |-> [n \in DOMAIN view |-> view[n].pid],
                terminated |-> {}, deleted |-> {}, tainted |-> {}, untainted |-> {}, succ |-> 0, result |-> 0,
                ret |-> "nil", ok |-> TRUE, valid |-> TRUE, uperr |-> FALSE,
@@ -337,8 +358,9 @@ GroupScan(gs, g, now, dryAll, F, obs) ==
   IN
   \* :308-322 below-minimum recovery; fix F2: not while the cool-down lock is held
   IF nUnt < minEff /\ ~locked
-    THEN LET u == ScaleUpOutcome(gs, g, dry, now, F, minEff - nUnt, ts, obs.att, r2)
-         IN Done(u, u.result, IF u.uperr THEN "error" ELSE "nil", "below_min")
+    THEN LET u == ScaleUpOutcome(gs, g, dry, now, F, minEff - nUnt, ts, obs.att, obs.fleetLo, r2)
+         IN IF u.exit THEN [u EXCEPT !.branch = "exit", !.ret = "error"]      \* the process exits inside the provider: nothing is remembered
+            ELSE Done(u, u.result, IF u.uperr THEN "error" ELSE "nil", "below_min")
   ELSE
   \* :327-336 util.go calcPercentUsage
   LET allZero == rc = 0 /\ rm = 0 /\ cc = 0 /\ cm = 0 /\ nUnt = 0
@@ -398,15 +420,16 @@ GroupScan(gs, g, now, dryAll, F, obs) ==
                              t == TaintLoop(obs.att, 1, g, F, now, EffectOf(gs), [r6 EXCEPT !.succ = 0])
                          IN Done([t EXCEPT !.valid = @ /\ selOK], nd, "nil", "down")
   ELSE IF nd > 0 THEN
-       LET u == ScaleUpOutcome(gs, g, dry, now, F, nd, ts, obs.att, r4)
-       IN Done([u EXCEPT !.ctl = [@ EXCEPT !.lastOut = now]], nd, "nil", "up")
+       LET u == ScaleUpOutcome(gs, g, dry, now, F, nd, ts, obs.att, obs.fleetLo, r4)
+       IN IF u.exit THEN [u EXCEPT !.branch = "exit", !.ret = "error"]
+          ELSE Done([u EXCEPT !.ctl = [@ EXCEPT !.lastOut = now]], nd, "nil", "up")
   ELSE \* nothing to scale: reap only
        LET gr == DeleteBatch(GraceCands(gs, dry, now, ts), g, F, r4)
        IN IF gr.ret = "notingroup" THEN [Done(gr, 0, "notingroup", "idle_fatal") EXCEPT !.fatal = TRUE]
           ELSE Done([gr EXCEPT !.valid = @ /\ obs.att = <<>>], 0, "nil", "idle")
 
 \* the post-state group record
-PostGroup(gs, r) == [gs EXCEPT !.api = r.api, !.asg = r.asg, !.pc = r.pc, !.ctl = r.ctl, !.accepted = r.accepted]
+PostGroup(gs, r) == [gs EXCEPT !.api = r.api, !.asg = r.asg, !.pc = r.pc, !.ctl = r.ctl, !.accepted = r.accepted, !.tries = r.tries]
 
 -----------------------------------------------------------------------------
 (* RunOnce: refresh, then the groups in configuration order (controller.go:501-552).             *)
@@ -434,16 +457,17 @@ GroupLoop(i, F, obs, acc, order) ==
            r == GroupScan(acc.W.groups[g], g, acc.W.now, acc.W.dryAll, F, obs[g])
            W2 == [acc.W EXCEPT !.groups = [@ EXCEPT ![g] = PostGroup(acc.W.groups[g], r)]]
            acc2 == [acc EXCEPT !.W = W2, !.calls = @ \o r.calls, !.valid = @ /\ r.valid, !.res = [@ EXCEPT ![g] = r]]
-       IN IF r.fatal THEN [acc2 EXCEPT !.ret = "notingroup", !.W = [W2 EXCEPT !.alive = FALSE]]
+       IN IF r.exit THEN [acc2 EXCEPT !.ret = "error", !.exit = TRUE, !.W = [W2 EXCEPT !.alive = FALSE]]
+          ELSE IF r.fatal THEN [acc2 EXCEPT !.ret = "notingroup", !.W = [W2 EXCEPT !.alive = FALSE]]
           ELSE GroupLoop(i + 1, F, obs, acc2, order)
 
 NoResult == [branch |-> "not_scanned", valid |-> TRUE, calls |-> <<>>, lookReq |-> {}, lookMay |-> {}, nd |-> 0, ndSet |-> {0},
              sel |-> [dir |-> 0, cands |-> {}, k |-> 0, fails |-> {}],
-             terminated |-> {}, deleted |-> {}, tainted |-> {}, untainted |-> {}, ret |-> "nil", fatal |-> FALSE]
+             terminated |-> {}, deleted |-> {}, tainted |-> {}, untainted |-> {}, ret |-> "nil", fatal |-> FALSE, exit |-> FALSE]
 
 RunOnce(W, F, obs) ==
   LET W1 == Refreshed(W, F)
-      acc0 == [W |-> W1, calls |-> RefreshCalls(F), ret |-> "nil", valid |-> TRUE,
+      acc0 == [W |-> W1, calls |-> RefreshCalls(F), ret |-> "nil", valid |-> TRUE, exit |-> FALSE,
                res |-> [g \in DOMAIN W.groups |-> NoResult]]
   IN GroupLoop(1, F, obs, acc0, W.gorder)
 
